@@ -30,7 +30,7 @@ ANCHORS = [
     ("lib/debian/_deb822_repro/_util.py", ["combine_into_replacement", "BufferingIterator"]),
     ("lib/debian/_util.py", ["_CaseInsensitiveString", "OrderedSet"]),
 ]
-BUDGET = {"quick": 2600, "thorough": 34000}
+BUDGET = {"quick": 2200, "thorough": 34000}
 SHARD = 200
 RULE = ("line lists from the adjacency product of 8 line classes {blank, whitespace-only, comment, continuation, "
         "field, field-no-value, garbage, continuation-without-field} x {last line terminated, unterminated} "
